@@ -118,6 +118,10 @@ class DOMParser:
         context = ParseContext(self, options, False)
 
         for d in itertools.chain([dom_], dom_.iterdescendants()):
+            if not isinstance(d.tag, str):
+                # comments and processing instructions have no tag name; their
+                # text is not content (a tail is, and is handled below)
+                d.text = None
             if d.text is not None and d.text.strip() and d.tag.lower() != "lxmltext":
                 child = lxml.html.Element("lxmltext")
                 child.text = d.text
@@ -575,6 +579,7 @@ class ParseContext:
                         node_before is None
                         or (
                             dom_node_before is not None
+                            and isinstance(dom_node_before.tag, str)
                             and dom_node_before.tag.upper() == "BR"
                         )
                         or (
